@@ -81,7 +81,8 @@ func VerifC09Listing() {
 // and leaves a suffix of the chain.
 func VerifC09Retention() {
 	ctx := context.Background()
-	w := verifNewStore(true)
+	// the sweep runs on primaries and replicas alike; a replica learns the high-water mark from the stream
+	w := verifNewStore(rt.Choose("role.replica", 2) == 0)
 	w.verifOpenDB(nil, 0)
 	db := w.db
 	k := 1 + rt.Choose("files", 3)
